@@ -1115,6 +1115,8 @@ func dirVsPackageNameFamily() []*Program {
 		{{"bar2", "bar"}, {"bar", "bar2"}},
 		{{"bar", "bar"}, {"other", "bar2"}, {"bar2", "bar"}},
 		{{"fmt2", "fmt"}, {"fmt", "fmt2"}},
+		{{"init", "init"}, {"bar", "bar"}},
+		{{"pkginit", "init"}, {"init2", "init2"}},
 	}
 	for _, lay := range layouts {
 		perms := orderedSubsets(func() []int {
@@ -1327,6 +1329,32 @@ func crossInjectorCases() []*RejectCase {
 			mk[0]()
 			mk[1]()
 			add(b, "missing", fmt.Sprintf("cross-injector/binding-in-wrapper-set/bad-first=%v", secondFirst), DiagName(b.P, g))
+		}
+		// an injector PARAMETER spelled like a package-level set variable / provider function that
+		// another injector uses: inside that injector the name denotes the parameter
+		for _, what := range []string{"set", "func"} {
+			b := NewPB(fmt.Sprintf("xi_shadow_%s_%v", what, secondFirst), "app")
+			dep, app, other := b.Carrier(0, "Dep"), b.Carrier(0, "App"), b.Carrier(0, "Other")
+			nd := b.Func(0, "NewDep", dep, false, false)
+			na := b.Func(0, "NewApp", app, false, false, dep)
+			nd.Stub, na.Stub = true, true
+			set := b.Set(0, "DepSet", ItemRef(nd.ID))
+			_ = other
+			good := func() { b.Inj("InitDep", dep, false, false, nil, SetRef(set.ID)) }
+			if what == "func" {
+				good = func() { b.Inj("InitDep", dep, false, false, nil, ItemRef(nd.ID)) }
+			}
+			shadow := map[string]string{"set": "DepSet", "func": "NewDep"}[what]
+			raw := "func InitShadow(" + shadow + " Other) App {\n\twire.Build(NewApp, " + shadow + ")\n\treturn App{}\n}\n"
+			if secondFirst {
+				// the raw injector is rendered after the model's injectors: use a second raw one as the good one
+				b.P.InjRaw = raw + "\nfunc InitDepLater() Dep {\n\twire.Build(" + shadow + ")\n\treturn Dep{}\n}\n"
+				b.Inj("InitOther", other, false, false, []Param{{Name: "o", Ty: other}})
+			} else {
+				good()
+				b.P.InjRaw = raw
+			}
+			add(b, "not-provider", fmt.Sprintf("cross-injector/parameter-named-like-%s/bad-first=%v", what, secondFirst))
 		}
 		// a named set used by one injector and merely listed (not needed) by another
 		{
